@@ -21,6 +21,7 @@
 import DateutilVerif.Proofs.RDApply
 import DateutilVerif.Proofs.RDYearday
 import DateutilVerif.Proofs.RDGenEq
+import DateutilVerif.Model.RDHistory
 import DateutilVerif.Proofs.TzStrBridge
 import DateutilVerif.Proofs.TzStr
 
@@ -401,6 +402,32 @@ theorem promotion_iff_hasTime_gen (d : RD) (x r : Temporal) (hd : Normalised d) 
     r.kind = (if x.kind = .date ∧ RDSpec.hasTimeInfo d = true then .naive else x.kind) := by
   rw [RDG.addDt_eq] at h
   exact (promotion_iff_hasTime d x r hd h).1
+
+/-- **promotion_follows_flag.** For ANY record (normal form or not, e.g. after `d.hours = 5`): when `x + d` returns on a date
+    operand, the result is a datetime exactly when the FLAG `_has_time` is set — the code never looks at the fields here.
+    With `promotion_iff_hasTime` (flag = fields for every constructor-built delta) this is the property's promotion clause;
+    for a record whose flag is stale it is the known finding D-C03-stale-has-time (`stale_has_time_witness`). -/
+theorem promotion_follows_flag (d : RD) (x r : Temporal) (h : Gen.addDt d x = .ok r) (hx : x.kind = .date) :
+    (r.kind = .naive ↔ d.hasTime ≠ 0) ∧ (r.kind = .date ↔ d.hasTime = 0) := by
+  rw [RDG.addDt_eq] at h
+  have hk : r.kind = (promote d x).kind := by
+    unfold applyTo applyTail at h
+    simp only [bind, Except.bind, pure, Except.pure] at h
+    repeat' split at h
+    all_goals first | contradiction | (injection h with h; rw [← h])
+  rw [hk]
+  unfold promote
+  by_cases hf : d.hasTime = 0 <;> simp [hf, hx]
+
+/-- the known finding D-C03-stale-has-time on the history model over the translated methods: `relativedelta(days=1)`, then
+    `d.hours = 5`; the record now carries time information, its flag says 0, and `date(2000,1,1) + d` is the DATE 2000-01-02
+    (a fresh `relativedelta(days=1, hours=5)` gives the datetime 2000-01-02 05:00) -/
+theorem stale_has_time_witness :
+    (RDH.run { days := 1 } [.set (.hours 5), .use (.addDt ⟨.date, { y := 2000, m := 1, d := 1 }⟩)]).2
+      = [.temporal (.ok ⟨.date, { y := 2000, m := 1, d := 2 }⟩)] ∧
+    RDSpec.hasTimeInfo (RDH.run { days := 1 } [.set (.hours 5)]).1 = true ∧
+    (mk { days := 1, hours := 5 }).bind (fun d => Gen.addDt d ⟨.date, { y := 2000, m := 1, d := 1 }⟩)
+      = .ok ⟨.naive, { y := 2000, m := 1, d := 2, hh := 5 }⟩ := by decide +kernel
 
 theorem errors_only_out_of_range_gen (d : RD) (x : Temporal) (hd : InDomain d) (hx : x.Valid)
     (e : Py.PyErr) (h : Gen.addDt d x = .error e) : e = .ValueError ∨ e = .OverflowError := by
